@@ -1651,6 +1651,69 @@ fn c14_szx_ay_generator_updated() {
 }
 
 // @harness
+// @prop C14
+// @tier quick
+// @features sound,ay
+// @timeout 900
+// @fn szx::process_ay_block; Emulator::set_ay_enabled; ZXAyChip::select_reg; ZXAyChip::set_regs; ZXAyChip::read
+// @sym 48K receiver with its AY switched on or off before the load (symbolic) and one arbitrary earlier register write; chunk flags byte (all 256), selected register, all 16 register bytes
+// @assert 48K file: after the chunk the AY is present exactly if the chunk's ZXSTAYF_128AY flag (bit 1) says so - independent of the receiver's earlier setting - and when present the 16 registers read back as the chunk's values, the chunk's selected register is selected and all 14 sound registers reached the generator: also when it was this very chunk that switched the chip on
+// @bound one chunk, 48K machine (id 1)
+// @stub libm::sqrt -> identity; <AymPrecise as AymBackend>::write_register -> recorder
+// @replay solver-only
+#[cfg(all(feature = "sound", feature = "ay"))]
+#[kani::proof]
+#[kani::unwind(20)]
+#[kani::stub(libm::sqrt, sqrt_identity)]
+#[kani::stub(<aym::AymPrecise as aym::AymBackend>::write_register, gen_write_register)]
+fn c14_szx_ay_48k_independent_of_receiver_setting() {
+    let regs: [u8; 16] = kani::any();
+    let cur: u8 = kani::any();
+    kani::assume(cur < 16);
+    let flags: u8 = kani::any();
+    let mut body = [0u8; 18];
+    body[0] = flags;
+    body[1] = cur;
+    let mut i = 0;
+    while i < 16 {
+        body[2 + i] = regs[i];
+        i += 1;
+    }
+    let mut e = mk_emulator(ZXMachine::Sinclair48K, CTX);
+    let was_on: bool = kani::any();
+    e.set_ay_enabled(was_on);
+    let (r0, v0): (u8, u8) = (kani::any(), kani::any());
+    controller(&mut e).mixer.ay.select_reg(r0);
+    controller(&mut e).mixer.ay.write(v0);
+    unsafe {
+        AY_GEN_SEEN = 0;
+    }
+    let r = process_ay_block(&mut e, 1, &body);
+    kani::assert(r.is_ok(), "c14.szx.ay48.accepted");
+    // SZX specification: ZXSTAYF_FULLERBOX = 1, ZXSTAYF_128AY = 2
+    let want_on = flags & 2 != 0;
+    kani::assert(e.settings.ay_enabled == want_on && controller(&mut e).mixer.use_ay == want_on, "c14.szx.ay48.chip_present_iff_the_file_says_so");
+    if want_on {
+        let ay = &mut controller(&mut e).mixer.ay;
+        kani::assert(ay.read() == regs[cur as usize], "c14.szx.ay48.selected_register");
+        let mut i = 0u8;
+        while i < 16 {
+            ay.select_reg(i);
+            kani::assert(ay.read() == regs[i as usize], "c14.szx.ay48.register_readback");
+            i += 1;
+        }
+        unsafe {
+            kani::assert(AY_GEN_SEEN & 0x3FFF == 0x3FFF, "c14.szx.ay48.every_sound_register_reaches_generator");
+            let k: usize = kani::any();
+            kani::assume(k < 14);
+            kani::assert(AY_GEN[k] == regs[k], "c14.szx.ay48.generator_register_value");
+        }
+    }
+    kani::cover!(!was_on && want_on, "the chunk switches the chip on");
+    kani::cover!(was_on && !want_on, "the chunk switches the chip off");
+}
+
+// @harness
 // @prop C15
 // @tier quick
 // @features sound,ay
